@@ -1,14 +1,119 @@
 /-
   C18 — pseudo-versions round-trip and sort between their base and the next release.
-  Property theorems only; helper lemmas live in ModVerif/Proofs/Pseudo*.lean.
--/
-import ModVerif.Model.Pseudo
-namespace ModVerif.Props.C18
-open ModVerif ModVerif.Pseudo
+  Property theorems only (plus non-vacuity examples); helper lemmas live in ModVerif/Proofs/Pseudo*.lean.
 
-/-- the zero pseudo-version of the default major is recognised, and is what IsZeroPseudoVersion accepts. -/
-theorem zeroPseudo_recognised :
-    (zeroPseudoVersion []).toOption.map isPseudoVersion = some true
-    ∧ (zeroPseudoVersion []).toOption.map isZeroPseudoVersion = some true := by decide
+  Vocabulary (ModVerif/Spec/PseudoSpec.lean): `Num d` — a decimal number without leading zeros;
+  `decValue d` — its value; `Ts ts` — fourteen digits; `Rev rev` — non-empty, letters and digits;
+  `MajorArg major` — "" or "v" and a number.  The commit time enters as the string
+  `ts = t.UTC().Format("20060102150405")`; `fmtTime`/`formatUnix` (compared with Go's time package in
+  the correspondence) produce it from civil fields / a Unix second.
+-/
+import ModVerif.Proofs.PseudoFinal
+import ModVerif.Proofs.PseudoTime
+namespace ModVerif.Props.C18
+open ModVerif ModVerif.PseudoSpec ModVerif.Proofs.Pseudo
+open ModVerif.Pseudo hiding isDigit isAlnum
+
+/-- the admissible (major, base) pairs: a valid base version (major is then ignored), or no base and a
+    major version prefix -/
+def Admissible (major older : Bytes) : Prop :=
+  Semver.isValid older = true ∨ (older = [] ∧ MajorArg major)
+
+/-! ## incDecimal / decDecimal -/
+
+/-- incDecimal on a number of any length: no panic, the value grows by exactly one, and the result is
+    again a number without leading zeros. -/
+theorem incDecimal_spec (d : Bytes) (hd : Num d) :
+    ∃ r, incDecimal d = some r ∧ decValue r = decValue d + 1 ∧ Num r := by
+  obtain ⟨r, h1, h2, h3, _, _⟩ := incDecimal_num hd
+  exact ⟨r, h1, h3, h2⟩
+
+/-- decDecimal undoes incDecimal. -/
+theorem decDecimal_incDecimal (d : Bytes) (hd : Num d) :
+    ∃ r, incDecimal d = some r ∧ decDecimal r = d := by
+  obtain ⟨r, h1, _, _, _, h5⟩ := incDecimal_num hd
+  exact ⟨r, h1, h5⟩
+
+example : Num [49, 57, 57] ∧ incDecimal [49, 57, 57] = some [50, 48, 48] := by decide          -- "199" ↦ "200"
+example : Num (List.replicate 40 57) ∧ (incDecimal (List.replicate 40 57)).map List.length = some 41 := by decide
+
+/-! ## the generated pseudo-version is valid and recognised -/
+
+/-- PseudoVersion never panics on admissible inputs, and its result is a valid version that
+    IsPseudoVersion recognises. -/
+theorem pseudo_valid_and_recognised (major older ts rev : Bytes)
+    (hbase : Admissible major older) (hts : Ts ts) (hrev : Rev rev) :
+    ∃ pv, pseudoVersion major older ts rev = .ok pv ∧ Semver.isValid pv = true ∧ isPseudoVersion pv = true :=
+  valid_recognised_aux hbase hts hrev
+
+/-- "v1.2.9-rc.1+incompatible", "20231114221320", "abc123" -/
+example : Admissible [] [118, 49, 46, 50, 46, 57, 45, 114, 99, 46, 49, 43, 105, 110, 99, 111, 109, 112, 97, 116, 105, 98, 108, 101]
+    ∧ Ts [50, 48, 50, 51, 49, 49, 49, 52, 50, 50, 49, 51, 50, 48] ∧ Rev [97, 98, 99, 49, 50, 51] :=
+  ⟨Or.inl (by decide), by decide, by decide⟩
+/-- no base, major "v2" -/
+example : Admissible [118, 50] [] := Or.inr ⟨rfl, Or.inr ⟨[50], by decide, rfl⟩⟩
+
+/-! ## round trip -/
+
+/-- From the generated pseudo-version, PseudoVersionBase recovers the canonical base with its build
+    suffix (the empty string when there is no base), PseudoVersionRev the revision, and
+    PseudoVersionTime the time stamp (it fails exactly when the fourteen digits are not a date and time). -/
+theorem pseudo_roundtrip (major older ts rev : Bytes)
+    (hbase : Admissible major older) (hts : Ts ts) (hrev : Rev rev) :
+    ∃ pv, pseudoVersion major older ts rev = .ok pv ∧
+      pseudoVersionBase pv = .ok (Semver.canonical older ++ Semver.build older) ∧
+      pseudoVersionRev pv = .ok rev ∧
+      pseudoVersionTime pv = (if timeValid ts then .ok ts else .error .time) :=
+  roundtrip_aux hbase hts hrev
+
+/-! ## ordering -/
+
+/-- The pseudo-version sorts strictly after its base and strictly before the next release: for a release
+    base vX.Y.Z that is vX.Y.(Z+1) (`z` is the number with value Z+1), for a prerelease base vX.Y.Z-pre it
+    is vX.Y.Z. -/
+theorem pseudo_between (major older ts rev : Bytes) (p : Semver.Parsed)
+    (hp : Semver.parse older = some p) (hts : Ts ts) (hrev : Rev rev) :
+    ∃ pv, pseudoVersion major older ts rev = .ok pv ∧ Semver.compare older pv = -1 ∧
+      (p.prerelease = [] → ∃ z, Num z ∧ decValue z = decValue p.patch + 1 ∧
+          Semver.compare pv (118 :: p.major ++ 46 :: p.minor ++ 46 :: z) = -1) ∧
+      (p.prerelease ≠ [] → Semver.compare pv (118 :: p.major ++ 46 :: p.minor ++ 46 :: p.patch) = -1) :=
+  between_aux hp hts hrev
+
+/-- "v1.2.9" parses, with an empty prerelease -/
+example : ∃ p, Semver.parse [118, 49, 46, 50, 46, 57] = some p ∧ p.prerelease = [] := ⟨_, rfl, rfl⟩
+/-- "v1.2.9-rc" parses, with a non-empty prerelease -/
+example : ∃ p, Semver.parse [118, 49, 46, 50, 46, 57, 45, 114, 99] = some p ∧ p.prerelease ≠ [] := ⟨_, rfl, by decide⟩
+
+/-- A pseudo-version with no base sorts strictly below vX.0.0 (X = 0 when major is ""). -/
+theorem pseudo_nobase_below (major ts rev : Bytes) (hm : MajorArg major) (hts : Ts ts) (hrev : Rev rev) :
+    ∃ pv, pseudoVersion major [] ts rev = .ok pv ∧
+      Semver.compare pv ((if major = [] then [118, 48] else major) ++ [46, 48, 46, 48]) = -1 :=
+  nobase_aux hm hts hrev
+
+/-- For the same (major, base), an earlier time stamp gives a strictly lower pseudo-version, whatever the
+    two revisions are. -/
+theorem pseudo_time_mono (major older ts1 ts2 rev1 rev2 : Bytes) (hbase : Admissible major older)
+    (h1 : Ts ts1) (h2 : Ts ts2) (r1 : Rev rev1) (r2 : Rev rev2) (hlt : bytesLt ts1 ts2 = true) :
+    ∃ pv1 pv2, pseudoVersion major older ts1 rev1 = .ok pv1 ∧ pseudoVersion major older ts2 rev2 = .ok pv2 ∧
+      Semver.compare pv1 pv2 = -1 :=
+  time_mono_aux hbase h1 h2 r1 r2 hlt
+
+/-- two stamps one second apart, the earlier one with the "larger" revision -/
+example : bytesLt [50, 48, 50, 51, 49, 49, 49, 52, 50, 50, 49, 51, 49, 57] [50, 48, 50, 51, 49, 49, 49, 52, 50, 50, 49, 51, 50, 48] = true
+    ∧ Rev [122, 122] ∧ Rev [48] := by decide
+
+/-! ## the time stamp -/
+
+/-- The layout is fixed-width and zero-padded: for civil times in range (year below 10000) the result is a
+    time stamp, and the order of instants is the bytewise order of their stamps. -/
+theorem fmtTime_mono (Y M D h m s Y' M' D' h' m' s' : Nat)
+    (hr : Y < 10000 ∧ M < 100 ∧ D < 100 ∧ h < 100 ∧ m < 100 ∧ s < 100)
+    (hr' : Y' < 10000 ∧ M' < 100 ∧ D' < 100 ∧ h' < 100 ∧ m' < 100 ∧ s' < 100) :
+    Ts (fmtTime Y M D h m s) ∧
+    (bytesLt (fmtTime Y M D h m s) (fmtTime Y' M' D' h' m' s') = true ↔
+      civilLt (Y, M, D, h, m, s) (Y', M', D', h', m', s')) :=
+  fmtTime_mono_aux hr hr'
+
+example : civilLt (1999, 12, 31, 23, 59, 59) (2000, 1, 1, 0, 0, 0) := by decide
 
 end ModVerif.Props.C18
